@@ -3,7 +3,7 @@
 C17  round trip up to Norm + refusal of unrepresentable manifests     (plain build)
 C18  decoder total: ok | invalid_argument, no crash / UB / time-out    (plain + asan build, same inputs)
 """
-import base64, json, os, re
+import base64, json, os, re, time
 from concurrent.futures import ThreadPoolExecutor
 import vlib
 from vlib import log
@@ -199,26 +199,39 @@ def classes(e):
     return ["crash", e["phase"], e["why"]]
 
 
-def run_script(chk, lines, label, flavour="plain", reuse=None):
-    """run the script on the real code (given build flavour), validate the trace with TLC; returns (events, res, trace path)"""
+def drive(pid, lines, label, flavour):
+    """run the script on the real code (given build flavour); returns a job record (no TLC yet)"""
     b = vlib.build("manifest", flavour)["manifest"]
-    wd = vlib.workdir("manifest-%s-%s-%s" % (chk.pid, label, flavour))
+    wd = vlib.workdir("manifest-%s-%s-%s" % (pid, label, flavour))
     script, trace = os.path.join(wd, "script.txt"), os.path.join(wd, "trace.ndjson")
     with open(script, "w") as f:
         f.write("\n".join(lines) + "\n")
     env = {"ASAN_OPTIONS": "detect_leaks=0:abort_on_error=0:allocator_may_return_null=1", "UBSAN_OPTIONS": "print_stacktrace=0"}
+    t0 = time.time()
     vlib.sh([b, script, trace], timeout=900, env=env)
+    t_drv = time.time() - t0
     events = vlib.read_ndjson(trace)
     if len(events) != len(lines):
         raise vlib.MachineryError("driver produced %d events for %d operations (%s/%s)" % (len(events), len(lines), label, flavour))
     for e in events:
         if e["op"] == "crash" and e["phase"] == "driver":
             raise vlib.MachineryError("the driver itself died outside the code under test: %s" % json.dumps(e))
-    if reuse is not None and open(reuse[0], "rb").read() == open(trace, "rb").read():
-        res = reuse[1]
-        log("[trace] %s/%s: %d events, byte-identical to the plain build's trace (validated above); no sanitizer report" % (label, flavour, len(events)))
+    return {"label": label, "flavour": flavour, "lines": lines, "events": events, "trace": trace, "t_drv": t_drv}
+
+
+def judge(job, reuse=None):
+    """TLC validation of a driven script (a sanitizer-build trace that is byte-identical to the already
+    validated plain trace is not validated twice)"""
+    if reuse is not None and open(reuse["trace"], "rb").read() == open(job["trace"], "rb").read():
+        job["res"] = reuse["res"]
+        job["same_as_plain"] = True
     else:
-        res = vlib.validate("ManifestTrace", trace, timeout=1500)
+        job["res"] = vlib.validate("ManifestTrace", job["trace"], timeout=1500)
+    return job
+
+
+def account(chk, job):
+    label, flavour, events, res, lines = job["label"], job["flavour"], job["events"], job["res"], job["lines"]
     chk.add_traces(len(events), len(events), res, "%s/%s" % (label, flavour))
     for e in events:
         chk.nontrivial(classes(e))
@@ -227,8 +240,16 @@ def run_script(chk, lines, label, flavour="plain", reuse=None):
         log("[info] %s/%s: the specification's layout differs from the real one on %d encodings / %d decodings (informative, not a verdict)" % (
             label, flavour, st.get("wire_diff", 0), st.get("specdec_diff", 0)))
     report(chk, res, events, lines, "%s/%s" % (label, flavour))
-    log("[trace] %s/%s: %d events, %d with failing clauses; stats %s" % (label, flavour, len(events), len(res.get("viol", [])), json.dumps(st)))
-    return events, res, trace
+    log("[trace] %s/%s: %d events (driver %.1fs, %s), %d with failing clauses; stats %s" % (
+        label, flavour, len(events), job["t_drv"],
+        "trace byte-identical to the plain build's, validated there: no sanitizer report" if job.get("same_as_plain") else "TLC %.1fs" % res.get("wall", 0),
+        len(res.get("viol", [])), json.dumps(st)))
+
+
+def run_script(chk, lines, label, flavour="plain"):
+    job = judge(drive(chk.pid, lines, label, flavour))
+    account(chk, job)
+    return job
 
 
 def report(chk, res, events, lines, label):
@@ -260,25 +281,41 @@ def run(chk):
                        "expiry fields, prefix/base64 damage) + seeded random manifests / strings; a case class = outcome x size bucket of every list and string "
                        "x expiry sign/fraction (rt) or mutation kind x version x outcome (dec)")
     rng = chk.rng
-    muts, shapes = run_models(chk, thorough)
+    c18 = chk.pid == "C18"
+    with ThreadPoolExecutor(max_workers=4) as ex:
+        builds = [ex.submit(vlib.build, "manifest", fl) for fl in (("plain", "asan") if c18 else ("plain",))]
+        muts, shapes = run_models(chk, thorough)
+        for b in builds:
+            b.result()
     singles = [s for s in shapes if sum(1 for k, v in s.items() if v != (2 if k == "exp" else 1)) <= 1]
     pairs = [s for s in shapes if s not in singles]
-    pick = singles + (pairs if thorough else rng.sample(pairs, 260))
+    pick = singles + (pairs if thorough else rng.sample(pairs, 160))
     rt_lines = [shape_line(s, i + 1) for i, s in enumerate(pick)]
-    rt_lines += [random_manifest_line(rng, i) for i in range(6000 if thorough else 500)]
+    rt_lines += [random_manifest_line(rng, i) for i in range(6000 if thorough else 300)]
     log("[gen] %d boundary shapes (%d single, %d pairs) + %d random manifests; %d TLC decoder inputs" % (
         len(pick), len(singles), len(pick) - len(singles), len(rt_lines) - len(pick), len(muts)))
-    ev_rt, res_rt, tr_rt = run_script(chk, rt_lines, "roundtrip")
-    if chk.pid == "C17":
-        chk.sample({"source": "roundtrip", "events": [{"tag": e.get("tag"), "enc": e["enc"], "dec": e.get("dec")} for e in ev_rt[:6]]})
-    if chk.pid == "C18":
-        run_script(chk, rt_lines, "roundtrip", "asan", reuse=(tr_rt, res_rt))
-        real = [bytes(e["uri"]["b"]) for e in ev_rt if e["op"] == "rt" and e.get("exact") and e["enc"] == "ok"]
-        dec_lines = mut_lines(muts if thorough else muts) + random_dec_lines(rng, 20000 if thorough else 2500, real)
-        ev_d, res_d, tr_d = run_script(chk, dec_lines, "decode")
-        run_script(chk, dec_lines, "decode", "asan", reuse=(tr_d, res_d))
+    rt = drive(chk.pid, rt_lines, "roundtrip", "plain")
+    if not c18:
+        account(chk, judge(rt))
+        chk.sample({"source": "roundtrip", "events": [{"tag": e.get("tag"), "enc": e["enc"], "dec": e.get("dec")} for e in rt["events"][:6]]})
+    else:
+        real = [bytes(e["uri"]["b"]) for e in rt["events"] if e["op"] == "rt" and e.get("exact") and e["enc"] == "ok"]
+        dec_lines = mut_lines(muts) + random_dec_lines(rng, 20000 if thorough else 1500, real)
+        # the two input sets are independent: validate them side by side, each first on the plain build and then
+        # (same inputs) on the ASan+UBSan build
+        def chain(first, lines, label):
+            first = judge(first if first else drive(chk.pid, lines, label, "plain"))
+            return first, judge(drive(chk.pid, lines, label, "asan"), reuse=first)
+        with ThreadPoolExecutor(max_workers=2) as ex:
+            a = ex.submit(chain, rt, rt_lines, "roundtrip")
+            b = ex.submit(chain, None, dec_lines, "decode")
+            jobs = list(a.result()) + list(b.result())
+        for j in jobs:
+            account(chk, j)
+        ev_d = jobs[2]["events"]
         chk.sample({"source": "decode", "events": [{"kind": e.get("kind"), "n": e.get("x", {}).get("n"), "res": e.get("res")} for e in ev_d[:3] + ev_d[-3:]]})
-        chk.assumptions.append("memory safety / UB are observed by ASan+UBSan (g++ -fsanitize=address,undefined) on these executions; the sanitizer is a monitor, not a proof")
+        chk.assumptions.append("memory safety / UB are observed by ASan+UBSan (g++ -fsanitize=address,undefined) on these executions; the sanitizer is a monitor, not a proof; "
+                               "UBSan reports a source location once per driver process")
     chk.assumptions += ASSUME
 
 
